@@ -11,5 +11,5 @@ echo "== demo with the change"; (cd $WT && timeout 300 env PYTHONPATH=$WT /venv/
 echo "== existing tests with the change"; (cd $WT && PYTHONPATH=$WT /venv/bin/python -m pytest -q -p no:cacheprovider -x --deselect tests/http/proxy/test_http2.py::TestHttp2WithProxy::test_http2_via_proxy --deselect tests/http/test_client.py::TestClient::test_client --deselect tests/http/test_client.py::TestClient::test_http tests/common tests/core tests/http tests/plugin tests/socks tests/test_set_open_file_limit.py 2>&1 | tail -2)
 for c in $CHECKS; do
   echo "== check $c against the change"
-  VF_REPO=$WT /verif/check $c --tier quick 2>&1 | grep -E "^VIOLATION|^  clause|^C[0-9]+ tier|HARNESS" | head -8
+  VF_REPO=$WT timeout 1500 /verif/check $c --tier quick 2>&1 | grep -E "^VIOLATION|^  clause|^C[0-9]+ tier|HARNESS" | head -8
 done
